@@ -178,6 +178,38 @@ def run(ctx):
         run.instance(R2, {"fn": "EncryptedBody::from_json", "obligation": "the AEAD nonce of every sealing is thread_rng().gen() (fresh per message)"}, held=held)
         if not held:
             run.finding(Finding(R2, fj.id, "the AES-GCM nonce used to seal a reply is not a fresh random value", site=fj.loc()))
+    R4 = "C13.R4"
+    run.rule(R4, "key rotation: init_secure_api reply updates the handler's shared key", floor=2)
+    # key agreement: every init_secure_api draws a fresh ECDH secret (so a re-key really supersedes the old session key)
+    isa = ctx.fn("<" + c.API + "owner::Owner<L, C, K> as " + c.API + "owner_rpc::OwnerRpc>::init_secure_api")
+    if isa:
+        fresh = lambda pr: bool(pr) and all(x[0] == "call" and x[1] == "secp256k1zkp::key::SecretKey::new" for x in pr) and all(
+            any(y[0] == "call" and y[1] == "rand::rngs::thread::thread_rng" for y in vf.producers(isa, isa.bbs[x[2]]["t"]["a"][1])) for x in pr)
+        mul = cfg.find_calls(isa, "secp256k1zkp::key::PublicKey::mul_assign")
+        fsk = cfg.find_calls(isa, "secp256k1zkp::key::PublicKey::from_secret_key")
+        h = len(mul) == 1 and len(fsk) == 1
+        if h:
+            p_mul = vf.producers(isa, mul[0][1]["a"][2])
+            p_pub = vf.producers(isa, fsk[0][1]["a"][1])
+            # our secret: SecretKey::new(secp, thread_rng()) created in this very call, used both for the shared point
+            # and for the public key handed back; the client's point is the request parameter
+            h = fresh(p_mul) and p_mul == p_pub and vf.has_field(vf.producers(isa, mul[0][1]["a"][0]), c.API + "types::ECDHPubkey", "ecdh_pubkey")
+        run.instance(R4, {"fn": "OwnerRpc::init_secure_api", "obligation": "the ECDH secret is SecretKey::new(thread_rng()) drawn in this call (not cached), multiplied into the client's public key, and its public key is what is returned"}, held=h)
+        if not h:
+            run.finding(Finding(R4, isa.id, "init_secure_api does not derive the session key from a secret freshly drawn for this handshake (a re-key could reproduce the superseded key)", site=isa.loc()))
+        # the stored session key is derived from that shared point
+        asg = [(b, st) for b, bb in enumerate(isa.bbs) if not bb["cleanup"] for st in bb["s"] if st["k"] == "a" and st["d"][1] == ["*"] and st["r"]["k"] in ("agg", "use")]
+        h = False
+        for b, st in asg:
+            src = st["r"]["f"][0][1] if st["r"]["k"] == "agg" and st["r"]["f"] else st["r"].get("o")
+            if src is None:
+                continue
+            o_ = vf.origins(isa, src)
+            if vf.has_call(o_, "secp256k1zkp::key::PublicKey::serialize_vec") and vf.has_call(o_, "secp256k1zkp::key::SecretKey::from_slice"):
+                h = True
+        run.instance(R4, {"fn": "OwnerRpc::init_secure_api", "obligation": "the handler's shared key := x coordinate of the shared point"}, held=h)
+        if not h:
+            run.finding(Finding(R4, isa.id, "the stored session key is not derived from the ECDH shared point", site=isa.loc()))
     R3 = "C13.R3"
     run.rule(R3, "replies to encrypted calls are encrypted (was_encrypted path split)", floor=2)
     if fn:
@@ -257,8 +289,6 @@ def run(ctx):
                     if not h4:
                         run.finding(Finding(R3, CALL_API, "encrypt_response key handle differs from decrypt_request's", site=fn.loc()))
 
-    R4 = "C13.R4"
-    run.rule(R4, "key rotation: init_secure_api reply updates the handler's shared key", floor=2)
     uk = ctx.fn(H + "update_owner_api_shared_key")
     if uk:
         # the helper really stores the new key: `*key.lock() = new_key` (write through the guard of the key parameter)
